@@ -1,4 +1,4 @@
-SPECIFICATION Spec
+SPECIFICATION SpecB
 CONSTANTS
   Modes <- BothModes
   MaxN = 4
@@ -8,7 +8,6 @@ CONSTANTS
   Kinds <- AllKinds
   Classes <- AllClasses
   EmitOps <- NoEmit
-ACTION_CONSTRAINT SrcBound
 VIEW absvars
 INVARIANTS TypeOK Inside
 PROPERTIES ObserversPure FailedChangesNothing ContractOnlyWhenThrowing WriteLaw
